@@ -684,7 +684,7 @@ var xfAssertions = map[string]string{
 	`fs.normalizeFileContent|<computed message>`:                                                                           "the type switch covers the whole type set of the FileContent constraint",
 	`internal/json.(GuessData).LiteralJsonType|<computed message>`:                                                         "called on scanner-produced literal tokens under a CatchLexEventError handler; a value no predicate recognises comes back as a DocumentError there",
 	`formats/json.(scanner).shiftFound|"Empty set of found lexical event"`:                                                 "both call sites test len(s.finds) != 0 first",
-	`formats/json.(scanner).processFoundLexemeClosingTag|"Incorrect ending of the lexical event"`:                          "unreachable in every explored scanner state (SX-crash / SA-J)",
+	`formats/json.(scanner).processFoundLexemeClosingTag|"Incorrect ending of the lexical event"`:                          "unreachable in every explored scanner state (SX-crash / SA-J); the explorations stop at a rejecting transition, and Document.NextLexeme does not step the scanner after one (SA-Jlatch)",
 	`notations/jschema/internal/schema.(ObjectNode).Key|<computed message>`:                                                "called with the index of an existing child",
 	`notations/jschema/internal/scanner.(Scanner).Length|"Method not allowed"`:                                             "Length is only called on a scanner built with ComputeLength (Schema.computeLen)",
 }
